@@ -9,7 +9,7 @@ import threading
 
 from . import lib
 from .engine import exec_op
-from .lang import Env, Failed, HarnessError, InjectedFault, Skipped, op_deps
+from .lang import Env, Failed, HarnessError, InjectedError, InjectedFault, Skipped, op_deps
 
 mon = sys.monitoring
 M64 = (1 << 64) - 1
@@ -187,6 +187,8 @@ class Sim:
             del self.faults[a.cur_op]
             self.fired[f[1]] = self.fired.get(f[1], 0) + 1
             self.fired_after_first = True
+            if f[1] == "async_err":
+                raise InjectedError("injected at step %d of op %d" % (a.op_steps, a.cur_op))
             raise InjectedFault("injected at step %d of op %d" % (a.op_steps, a.cur_op))
         st = self.stall
         if st is not None and st["actor"] == a.idx and st["op"] == a.cur_op and st["step"] == a.op_steps:
